@@ -85,7 +85,7 @@ Proof.
   - destruct (vmsg s m); [|reflexivity]. unfold step_shift. destruct (negb (memb x (gsigs s m))); [reflexivity|].
     destruct (do_shift_right (sz s) (rel s) (glsize s m) (glay s m) x a). cbn [fst]. same_ecore.
   - destruct (vmsg s m); [|reflexivity]. unfold step_compact. cbn [fst]. same_ecore.
-  - destruct (vmsg s m); [|reflexivity]. unfold step_resize. destruct (bytes <? 0); [reflexivity|]. destruct (gbytes s m =? bytes); [reflexivity|].
+  - destruct (vmsg s m); [|reflexivity]. unfold step_resize. destruct (bytes <? 0); [reflexivity|]. destruct (gbytes s m =? bytes); [reflexivity|]. destruct (2 ^ 60 - 1 <? bytes); [reflexivity|].
     destruct (verify_resize (sz s) (rel s) (glsize s m) (glay s m) (bytes * 8)); [reflexivity|]. cbn [fst]. same_ecore.
   - destruct (vmsg s m); reflexivity.
   - destruct (vsig s x); [|reflexivity]. unfold step_set_type. destruct (kind s x) as [old| |] eqn:Ek; try reflexivity.
@@ -199,7 +199,7 @@ Proof.
     destruct (Nat.eq_dec y x) as [Ex|NE]; [exact Ex|]. exfalso. apply Hy. rewrite Ep. apply do_shift_right_frame. exact NE.
   - destruct (vmsg s m); [|exfalso; apply Hy; reflexivity]. unfold step_compact in Hy. cbn in Hy.
     destruct (in_dec Nat.eq_dec y (glay s m)) as [Hin|Hn]; [exact Hin|]. exfalso. apply Hy. unfold do_compact. apply compact_from_frame. exact Hn.
-  - apply Hy. destruct (vmsg s m); [|reflexivity]. unfold step_resize. destruct (bytes <? 0); [reflexivity|]. destruct (gbytes s m =? bytes); [reflexivity|].
+  - apply Hy. destruct (vmsg s m); [|reflexivity]. unfold step_resize. destruct (bytes <? 0); [reflexivity|]. destruct (gbytes s m =? bytes); [reflexivity|]. destruct (2 ^ 60 - 1 <? bytes); [reflexivity|].
     destruct (verify_resize (sz s) (rel s) (glsize s m) (glay s m) (bytes * 8)); reflexivity.
   - apply Hy. destruct (vmsg s m); reflexivity.
   - destruct (vsig s x); [|exfalso; apply Hy; reflexivity]. unfold step_set_type in Hy. destruct (kind s x) as [old| |] eqn:Ek; try (exfalso; apply Hy; reflexivity).
